@@ -65,7 +65,7 @@ def matrix():
     for method in ('central', 'forward', 'backward', 'complex', 'multicomplex'):
         for size in (2, 3, 5):
             for mode in ('sum_to_scalar', 'truncate', 'one_more', 'pair_for_triple'):
-                for n in (1, 2):
+                for n in (0, 1, 2):
                     yield dict(kind='not_one_value_per_element', cls='Derivative', method=method, dim=size,
                                mode=mode, n=n, order=2)
     # 3. multicomplex n > 2
@@ -129,7 +129,7 @@ def cases(rng, tier, shard, nshards):
             yield dict(kind='not_one_value_per_element', cls='Derivative', dim=int(rng.integers(2, 9)),
                        method=str(rng.choice(['central', 'forward', 'backward', 'complex', 'multicomplex'])),
                        mode=str(rng.choice(['sum_to_scalar', 'truncate', 'one_more', 'pair_for_triple'])),
-                       n=int(rng.integers(1, 3)), order=int(rng.choice([2, 4])))
+                       n=int(rng.integers(0, 3)), order=int(rng.choice([2, 4])))
         else:
             n = int(rng.integers(1, 7))
             m_ = int(rng.integers(1, 4))
